@@ -277,10 +277,11 @@ func runGateSchedule(sc gateScenario, schedule []int, maxSteps int, wrap bool) (
 		g.mu.Unlock()
 		close(party.release)
 		// wait for the root swap of that introduction
-		deadline := time.Now().Add(10 * time.Second)
+		deadline := time.Now().Add(60 * time.Second)
 		for g.swapTotal() == before {
 			if time.Now().After(deadline) {
-				res.msg = fmt.Sprintf("step %d: released %s but no root swap happened within 10s (trace %v)", step, name, res.trace)
+				// progress is not C04's subject: inconclusive, not a violation
+				res.harness = fmt.Sprintf("step %d: released %s but no root swap happened within 60s (trace %v)", step, name, res.trace)
 				return
 			}
 			time.Sleep(100 * time.Microsecond)
